@@ -7,6 +7,7 @@ import itertools
 from vmon import gen
 from vmon.checks.common import obs, fail
 
+CANONICAL_ABS = True   # equals pairs over the canonically sorted list (oracle.abs_order)
 PROP = "C17"
 MONITORS = ["equals"]
 INSITU = {"k": "equals or eq or tokenisation or copy"}
@@ -47,7 +48,7 @@ def make_case(rng, i, tier):
         notes = keep
     extra = []
     if rng.random() < 0.7:
-        extra.append(["ts", rng.choice([0, 0, 24]), rng.choice([3, 4, 6]), rng.choice([4, 8])])
+        extra.append(["ts", rng.choice([0, 0, 24]), rng.choice([3, 4, 6, 8]), rng.choice([4, 8])])
     if rng.random() < 0.6:
         extra.append(["ks", rng.choice([0, 0, 48]), rng.choice(gen.KEYS)])
     if rng.random() < 0.3:
